@@ -3,16 +3,21 @@
    discriminants, the TryFrom<u8> arms, and for every arm of from_term / to_term / into_term the arity guard and the
    field order.  The theorems are proved for every table that passes the decidable check `table_ok`; the per-run
    obligations are `table_ok control_table = true` and the comparison with the protocol's own table. *)
-From EDP Require Import Base.Bytes Term.Term Term.Value Gen.ControlTable Dist.Control Dist.ControlSpec Dist.ControlFacts.
+From EDP Require Import Base.Bytes Term.Term Term.Value Term.Access Gen.ControlTable Dist.Control Dist.ControlSpec Dist.ControlFacts Term.AccessFacts.
 
 Theorem C08_table_ok : table_ok control_table = true.
 Proof. vm_compute. reflexivity. Qed.
 
+(* the tag element is read as an integer whichever way it is encoded (as_integer): parsing depends on its value only *)
+Lemma from_term_tag : forall tbl x z r, as_integer x = Some z ->
+  from_term tbl (TTuple (x :: r)) = from_term tbl (TTuple (TInt z :: r)).
+Proof. intros tbl x z r H. unfold from_term. rewrite H. reflexivity. Qed.
+
 (* every tuple headed by an integer 0..255 parses, the only exception being a bad unlink id *)
-Theorem C08_parse_total : forall tbl z fs, (0 <= z <= 255)%Z ->
-  (exists m, from_term tbl (TTuple (TInt z :: fs)) = COk m) \/ from_term tbl (TTuple (TInt z :: fs)) = CErr EUnlinkId.
+Theorem C08_parse_total : forall tbl x z fs, as_integer x = Some z -> (0 <= z <= 255)%Z ->
+  (exists m, from_term tbl (TTuple (x :: fs)) = COk m) \/ from_term tbl (TTuple (x :: fs)) = CErr EUnlinkId.
 Proof.
-  intros tbl z fs Hz. unfold from_term.
+  intros tbl x z fs Hx Hz. rewrite (from_term_tag tbl x z fs Hx). unfold from_term, as_integer, from_term_c.
   replace ((0 <=? z) && (z <=? 255))%Z with true by (symmetry; apply andb_true_intro; split; apply Z.leb_le; lia).
   destruct (find_entry tbl (Z.to_N z) (len (TInt z :: fs))) as [e|]; [|left; eauto].
   destruct (build_fields e (TInt z :: fs)); [left; eauto|right; reflexivity].
@@ -21,27 +26,44 @@ Qed.
 (* anything else is rejected with an error *)
 Theorem C08_rejects_others : forall tbl t,
   (forall els, t <> TTuple els) \/ t = TTuple [] \/
-  (exists x r, t = TTuple (x :: r) /\ (forall z, x <> TInt z)) \/ (exists z r, t = TTuple (TInt z :: r) /\ ~ (0 <= z <= 255)%Z) ->
+  (exists x r, t = TTuple (x :: r) /\ as_integer x = None) \/
+  (exists x z r, t = TTuple (x :: r) /\ as_integer x = Some z /\ ~ (0 <= z <= 255)%Z) ->
   exists e, from_term tbl t = CErr e.
 Proof.
-  intros tbl t [H|[->|[(x & r & -> & Hx)|(z & r & -> & Hz)]]].
+  intros tbl t [H|[->|[(x & r & -> & Hx)|(x & z & r & -> & Hx & Hz)]]].
   - destruct t; try (eexists; reflexivity). exfalso. now apply (H l).
   - eexists; reflexivity.
-  - destruct x; try (eexists; reflexivity). exfalso. now apply (Hx z).
-  - unfold from_term. replace ((0 <=? z) && (z <=? 255))%Z with false; [eexists; reflexivity|].
+  - unfold from_term. rewrite Hx. eexists; reflexivity.
+  - rewrite (from_term_tag tbl x z r Hx). unfold from_term, as_integer, from_term_c.
+    replace ((0 <=? z) && (z <=? 255))%Z with false; [eexists; reflexivity|].
     symmetry. apply andb_false_iff. destruct (Z_lt_le_dec z 0); [left; apply Z.leb_gt; lia|right; apply Z.leb_gt; lia].
 Qed.
 
 (* lossless, known or unknown tag, any arity: serialising the parsed message gives back the same tuple — element for
-   element; for the unlink operations the id comes back in its canonical integer form, which denotes the same integer *)
+   element, with the tag as the plain integer it denotes; for the unlink operations the id comes back in its
+   canonical integer form, which denotes the same integer *)
 Theorem C08_lossless : forall els m, from_term control_table (TTuple els) = COk m ->
-  exists z, els = TInt z :: tl els /\ (0 <= z <= 255)%Z /\
+  exists x z, els = x :: tl els /\ as_integer x = Some z /\ (0 <= z <= 255)%Z /\
+    let els' := TInt z :: tl els in
     match m with
-    | CGeneric ty fs => ty = Z.to_N z /\ fs = tl els /\ to_term control_table m = TTuple els /\ into_term control_table m = TTuple els
+    | CGeneric ty fs => ty = Z.to_N z /\ fs = tl els /\ to_term control_table m = TTuple els' /\ into_term control_table m = TTuple els'
     | CMsg v fs => exists e, In e control_table /\ ce_u8 e = Z.to_N z /\ ce_arity e = len els /\ v = ce_variant e /\
-                    to_term control_table m = TTuple (canon_els e els) /\ into_term control_table m = TTuple (canon_els e els)
+                    to_term control_table m = TTuple (canon_els e els') /\ into_term control_table m = TTuple (canon_els e els')
     end.
-Proof. exact (lossless control_table C08_table_ok). Qed.
+Proof.
+  intros els m H. destruct els as [|x r]; [discriminate H|]. unfold from_term in H.
+  destruct (as_integer x) as [z|] eqn:Ex; [|discriminate H].
+  destruct (lossless control_table C08_table_ok _ _ H) as (z' & Hz' & Hr & Hm).
+  cbn [tl] in Hz'. inversion Hz'; subst z'. exists x, z. split; [reflexivity|]. split; [exact Ex|]. split; [exact Hr|].
+  cbn zeta. cbn [tl] in *. destruct m.
+  - destruct Hm as (e & H1 & H2 & H3 & H4 & H5 & H6). exists e.
+    split; [exact H1|]. split; [exact H2|]. split; [exact H3|]. split; [exact H4|]. split; [exact H5|exact H6].
+  - exact Hm.
+Qed.
+
+(* the tag read by as_integer denotes the same integer as the element it was read from *)
+Theorem C08_tag_same_value : forall x z, as_integer x = Some z -> denote x = denote (TInt z).
+Proof. exact as_integer_value. Qed.
 
 Theorem C08_unlink_id_same_value : forall t id, unlink_id_of t = Some id -> id < 18446744073709551616 ->
   denote (unlink_id_term id) = denote t.
@@ -51,7 +73,7 @@ Proof. exact unlink_id_value. Qed.
 Theorem C08_to_eq_into : forall els m, from_term control_table (TTuple els) = COk m ->
   to_term control_table m = into_term control_table m.
 Proof.
-  intros els m H. destruct (C08_lossless els m H) as (z & _ & _ & Hm). destruct m.
+  intros els m H. destruct (C08_lossless els m H) as (x & z & _ & _ & _ & Hm). cbn zeta in Hm. destruct m.
   - destruct Hm as (e & _ & _ & _ & _ & H1 & H2). congruence.
   - destruct Hm as (_ & _ & H1 & H2). congruence.
 Qed.
@@ -82,7 +104,8 @@ Example C08_example :
     COk (CMsg 13 [(1, TAtom [97]); (2, TAtom [98]); (9, TAtom [116]); (3, TAtom [114])])
   /\ from_term control_table (TTuple [TInt 35; TBig false [0; 0; 0; 0; 0; 0; 0; 128]; TNil; TNil]) =
     COk (CMsg 35 [(20, TBig false [0; 0; 0; 0; 0; 0; 0; 128]); (1, TNil); (2, TNil)])
-  /\ from_term control_table (TTuple [TInt 99; TNil]) = COk (CGeneric 99 [TNil]).
+  /\ from_term control_table (TTuple [TInt 99; TNil]) = COk (CGeneric 99 [TNil])
+  /\ from_term control_table (TTuple [TBig false [1; 0]; TNil; TNil]) = COk (CMsg 1 [(1, TNil); (2, TNil)]).
 Proof. repeat split; vm_compute; reflexivity. Qed.
 
 Check C08_lossless.
